@@ -1,6 +1,261 @@
-//! C18: harness commands for property C18 (stub).
+//! C18: script / language tag selection. Runs the real `tags_from_script_and_language`, `lang_cmp`,
+//! `tags_from_complex_language`, `select_script` / `select_script_language` / required feature through
+//! the guarded hook `rustybuzz::verif::tag`. Inputs come from stdin (written by props/C18.py so that the
+//! model and the implementation see the same cases); strings are hex encoded.
+//!
+//!   rbv c18 registry            -> `reg <lang> <tag>` per compiled registry row
+//!   rbv c18 tags     < lines `<script|-> <h<hex>|->`          -> `<i> ok <s,..>|<l,..>` / `<i> panic <Class>`
+//!   rbv c18 langcmp  < lines `<hex> <hex>`                     -> `<i> ok <-1|0|1>` / panic
+//!   rbv c18 complex  < lines `<hex>`                           -> `<i> ok none` / `<i> ok <t,..>` / panic
+//!   rbv c18 scripttag < lines `<hex>`                          -> `<i> ok <tag>`
+//!   rbv c18 select   < lines `<fonthex> <0 GSUB|1 GPOS> <s,..|-> <l,..|-> <f,..|->`
+//!        -> `<i> ok none` / `<i> ok <found> <sidx> <stag> <lidx|-> <ridx:rtag|-> <fidx|-,..>` / panic / `<i> unparsed`
+//!   rbv c18 shape    < lines `<fonthex> <script|-> <h<hex>|-> <texthex> <usertag,..|->` -> `<i> ok <gid:adv,..>` (public API only)
+use crate::util::*;
+use rustybuzz::verif::tag as hook;
+use std::io::BufRead;
 
-pub fn run(_args: &[String]) {
-    eprintln!("c18: not implemented");
-    std::process::exit(2);
+fn unhex(s: &str) -> Vec<u8> {
+    let b = s.as_bytes();
+    let mut v = Vec::with_capacity(b.len() / 2);
+    let mut i = 0;
+    while i + 1 < b.len() {
+        let h = (b[i] as char).to_digit(16).unwrap_or(0) as u8;
+        let l = (b[i + 1] as char).to_digit(16).unwrap_or(0) as u8;
+        v.push(h * 16 + l);
+        i += 2;
+    }
+    v
+}
+
+fn unhex_str(s: &str) -> Option<String> {
+    String::from_utf8(unhex(s)).ok()
+}
+
+fn join(v: &[u32]) -> String {
+    v.iter().map(|t| t.to_string()).collect::<Vec<_>>().join(",")
+}
+
+fn nums(s: &str) -> Vec<u32> {
+    if s == "-" {
+        return Vec::new();
+    }
+    s.split(',').filter(|x| !x.is_empty()).filter_map(|x| x.parse().ok()).collect()
+}
+
+fn opt_field(s: &str) -> Option<Option<String>> {
+    // "-" => None ; "h<hex>" => Some(string) ; invalid utf-8 => outer None
+    if s == "-" {
+        Some(None)
+    } else {
+        unhex_str(&s[1..]).map(Some)
+    }
+}
+
+fn lines() -> Vec<String> {
+    std::io::stdin().lock().lines().map(|l| l.unwrap_or_default()).collect()
+}
+
+pub fn run(args: &[String]) {
+    quiet_panics();
+    let sub = args.first().map(|s| s.as_str()).unwrap_or("");
+    match sub {
+        "registry" => {
+            for (l, t) in hook::registry() {
+                println!("reg {} {}", l, t);
+            }
+        }
+        "tags" => {
+            for (i, line) in lines().iter().enumerate() {
+                let p: Vec<&str> = line.split(' ').collect();
+                if p.len() != 2 {
+                    println!("{} bad-line", i);
+                    continue;
+                }
+                let script = if p[0] == "-" { None } else { Some(p[0].to_string()) };
+                let lang = match opt_field(p[1]) {
+                    Some(l) => l,
+                    None => {
+                        println!("{} not-utf8", i);
+                        continue;
+                    }
+                };
+                let r = catch(move || hook::tags(script.as_deref(), lang.as_deref()));
+                match r {
+                    Ok((s, l)) => println!("{} ok {}|{}", i, join(&s), join(&l)),
+                    Err(c) => println!("{} panic {}", i, c),
+                }
+            }
+        }
+        "langcmp" => {
+            for (i, line) in lines().iter().enumerate() {
+                let p: Vec<&str> = line.split(' ').collect();
+                if p.len() != 2 {
+                    println!("{} bad-line", i);
+                    continue;
+                }
+                let (a, b) = match (unhex_str(p[0]), unhex_str(p[1])) {
+                    (Some(a), Some(b)) => (a, b),
+                    _ => {
+                        println!("{} not-utf8", i);
+                        continue;
+                    }
+                };
+                match catch(move || hook::lang_cmp(&a, &b)) {
+                    Ok(c) => println!("{} ok {}", i, c),
+                    Err(c) => println!("{} panic {}", i, c),
+                }
+            }
+        }
+        "complex" => {
+            for (i, line) in lines().iter().enumerate() {
+                let a = match unhex_str(line.trim()) {
+                    Some(a) => a,
+                    None => {
+                        println!("{} not-utf8", i);
+                        continue;
+                    }
+                };
+                match catch(move || hook::complex(&a)) {
+                    Ok(None) => println!("{} ok none", i),
+                    Ok(Some(t)) => println!("{} ok {}", i, join(&t)),
+                    Err(c) => println!("{} panic {}", i, c),
+                }
+            }
+        }
+        "scripttag" => {
+            for (i, line) in lines().iter().enumerate() {
+                let a = match unhex_str(line.trim()) {
+                    Some(a) => a,
+                    None => {
+                        println!("{} not-utf8", i);
+                        continue;
+                    }
+                };
+                match catch(move || hook::script_tag(&a)) {
+                    Ok(t) => println!("{} ok {}", i, t),
+                    Err(c) => println!("{} panic {}", i, c),
+                }
+            }
+        }
+        "select" => {
+            for (i, line) in lines().iter().enumerate() {
+                let p: Vec<&str> = line.split(' ').collect();
+                if p.len() != 5 {
+                    println!("{} bad-line", i);
+                    continue;
+                }
+                let data = unhex(p[0]);
+                let which: u32 = p[1].parse().unwrap_or(0);
+                let st = nums(p[2]);
+                let lt = nums(p[3]);
+                let ft = nums(p[4]);
+                let r = catch(move || {
+                    let face = match rustybuzz::Face::from_slice(&data, 0) {
+                        Some(f) => f,
+                        None => return None,
+                    };
+                    let table = match if which == 0 { face.tables().gsub } else { face.tables().gpos } {
+                        Some(t) => t,
+                        None => return None,
+                    };
+                    Some(match hook::select(&table, &st, &lt) {
+                        None => "none".to_string(),
+                        Some((found, sidx, stag, lidx, req)) => {
+                            let fs: Vec<String> = ft
+                                .iter()
+                                .map(|f| match hook::find_feature(&table, sidx, lidx, *f) {
+                                    Some(x) => x.to_string(),
+                                    None => "-".to_string(),
+                                })
+                                .collect();
+                            format!(
+                                "{} {} {} {} {} {}",
+                                found as u8,
+                                sidx,
+                                stag,
+                                lidx.map(|x| x.to_string()).unwrap_or("-".into()),
+                                req.map(|(a, b)| format!("{}:{}", a, b)).unwrap_or("-".into()),
+                                if fs.is_empty() { "-".to_string() } else { fs.join(",") }
+                            )
+                        }
+                    })
+                });
+                match r {
+                    Ok(Some(s)) => println!("{} ok {}", i, s),
+                    Ok(None) => println!("{} unparsed", i),
+                    Err(c) => println!("{} panic {}", i, c),
+                }
+            }
+        }
+        "shape" => {
+            // public API only: font bytes, script, language, text, user features -> gid:advance per glyph
+            for (i, line) in lines().iter().enumerate() {
+                let p: Vec<&str> = line.split(' ').collect();
+                if p.len() != 5 {
+                    println!("{} bad-line", i);
+                    continue;
+                }
+                let data = unhex(p[0]);
+                let script = if p[1] == "-" { None } else { Some(p[1].to_string()) };
+                let lang = match opt_field(p[2]) {
+                    Some(l) => l,
+                    None => {
+                        println!("{} not-utf8", i);
+                        continue;
+                    }
+                };
+                let text = match unhex_str(p[3]) {
+                    Some(t) => t,
+                    None => {
+                        println!("{} not-utf8", i);
+                        continue;
+                    }
+                };
+                let feats = nums(p[4]);
+                let r = catch(move || {
+                    use std::str::FromStr;
+                    let face = match rustybuzz::Face::from_slice(&data, 0) {
+                        Some(f) => f,
+                        None => return None,
+                    };
+                    let mut buf = rustybuzz::UnicodeBuffer::new();
+                    buf.push_str(&text);
+                    buf.set_direction(rustybuzz::Direction::LeftToRight);
+                    if let Some(s) = script {
+                        if let Ok(s) = rustybuzz::Script::from_str(&s) {
+                            buf.set_script(s);
+                        }
+                    }
+                    if let Some(l) = lang {
+                        if let Ok(l) = rustybuzz::Language::from_str(&l) {
+                            buf.set_language(l);
+                        }
+                    }
+                    let features: Vec<rustybuzz::Feature> = feats
+                        .iter()
+                        .map(|t| rustybuzz::Feature::new(rustybuzz::ttf_parser::Tag(*t), 1, ..))
+                        .collect();
+                    let out = rustybuzz::shape(&face, &features, buf);
+                    Some(
+                        out.glyph_infos()
+                            .iter()
+                            .zip(out.glyph_positions().iter())
+                            .map(|(g, p)| format!("{}:{}", g.glyph_id, p.x_advance))
+                            .collect::<Vec<String>>()
+                            .join(","),
+                    )
+                });
+                match r {
+                    Ok(Some(g)) => println!("{} ok {}", i, g),
+                    Ok(None) => println!("{} unparsed", i),
+                    Err(c) => println!("{} panic {}", i, c),
+                }
+            }
+        }
+        _ => {
+            eprintln!("c18: unknown sub-command {:?}", sub);
+            std::process::exit(2);
+        }
+    }
 }
